@@ -57,6 +57,8 @@ class W:
                 b.bind(Branch.open(st.url + bound + "/"))
             self.names[name] = (aro, bound)
         self.present = [i for i in range(len(dag)) if i not in self.ghosts]
+        self.reads = 0
+        self.objs = {}
 
     def url(self, name):
         return self.store.url + name + "/"
@@ -71,8 +73,27 @@ class W:
         self.raw.put_bytes(LASTREV % name, b"%d %s\n" % self.info(tip))
 
     def read_tip(self, name):
+        """Tip as stored (the file Branch._read_last_revision_info parses); every 16th read is
+        cross-checked against a freshly opened Branch object."""
+        data = self.raw.get_bytes(LASTREV % name)
+        revno, revid = data.rstrip(b"\n").split(b" ", 1)
+        info = (int(revno), revid)
+        self.reads += 1
+        if self.reads % 16 == 1:
+            from breezy.branch import Branch
+            got = Branch.open(self.url(name)).last_revision_info()
+            if got != info:
+                raise HarnessError("raw tip %r differs from Branch.last_revision_info() %r" % (info, got))
+        return info
+
+    def branch(self, name):
+        """A Branch object, reused for a while (unlocked objects re-read their state on locking)."""
         from breezy.branch import Branch
-        return Branch.open(self.url(name)).last_revision_info()
+        ent = self.objs.get(name)
+        if ent is None or ent[1] >= 24:
+            ent = self.objs[name] = [Branch.open(self.url(name)), 0]
+        ent[1] += 1
+        return ent[0]
 
     def close(self):
         self.store.close()
@@ -121,9 +142,9 @@ FAILS = ("DivergedBranches", "AppendRevisionsOnlyViolation", "GhostRevisionsHave
 def run_op(w, op, tname, stop, overwrite, sname="s"):
     """Perform one operation on fresh Branch objects; returns outcome string."""
     from breezy import errors
-    from breezy.branch import Branch, InterBranch
-    src = Branch.open(w.url(sname))
-    tgt = Branch.open(w.url(tname))
+    from breezy.branch import InterBranch
+    src = w.branch(sname)
+    tgt = w.branch(tname)
     stop_id = None if stop is None else rid(stop)
     try:
         if op == "pull":
@@ -153,14 +174,14 @@ def run_op(w, op, tname, stop, overwrite, sname="s"):
         return "exc:" + dw.exc_sig(e)
 
 
-def judge_target(acc, w, sig0, detail, tname, old, x, overwrite, aro, outcome, new_info, moved_by_master=False):
+def judge_target(acc, w, sig0, detail, tname, old, x, overwrite, aro, outcome, new_info, direct=False):
     """Apply the statement to one target branch (also used for the master of a bound target)."""
     ref = w.ref
     new = check_info(acc, w, tname, new_info, detail, sig0)
     if new == "bad":
         return
     if outcome.startswith("exc:"):
-        acc.violation("%s:%s" % (sig0, outcome[4:]), dict(detail, branch=tname))
+        acc.violation("tip-update:%s" % outcome[4:], dict(detail, branch=tname))
         return
     rel = relation(ref, old, x)
     ghosty = x is not None and ref.lefthand_ends_in_ghost(x)
@@ -174,7 +195,9 @@ def judge_target(acc, w, sig0, detail, tname, old, x, overwrite, aro, outcome, n
             acc.violation("%s:failed-with-%s-but-tip-changed" % (sig0, outcome), dict(detail, branch=tname, old=old, new=new))
             return
         if outcome == "DivergedBranches":
-            if overwrite or rel != "diverged":
+            if direct:
+                pass        # generate_revision_history(last_rev=..) has its own contract
+            elif overwrite or rel != "diverged":
                 acc.violation("%s:DivergedBranches-although-%s%s" % (sig0, rel, "-with-overwrite" if overwrite else ""),
                               dict(detail, branch=tname, old=old, requested=x))
         elif outcome == "AppendRevisionsOnlyViolation":
@@ -214,6 +237,7 @@ def covering(ref, n, ghosts, tips):
 
 def check_dag(acc, dag, ghosts, thorough):
     n = len(dag)
+    full = n <= (4 if thorough else 3)     # the largest size gets the trimmed option space
     w = W(dag, ghosts)
     ref = w.ref
     try:
@@ -230,7 +254,8 @@ def check_dag(acc, dag, ghosts, thorough):
                         for stop in stops:
                             x = s if stop is None else stop
                             for overwrite in (False, True):
-                                for op in ("pull", "push", "update_revisions"):
+                                for op in (("pull", "push", "update_revisions") if (not aro or full)
+                                           else ("pull", "push")):
                                     w.set_tip(tname, t)
                                     outcome = run_op(w, op, tname, stop, overwrite)
                                     new_info = w.read_tip(tname)
@@ -254,18 +279,17 @@ def check_dag(acc, dag, ghosts, thorough):
                                     new_info = w.read_tip(tname)
                                     acc.n += 1
                                     detail = dict(base_detail, op=op, target_tip=t, revision=stop, append_only=aro)
-                                    ow = op != "generate_revision_history_checked"
-                                    judge_target(acc, w, op, detail, tname, t, stop, ow, aro, outcome, new_info)
+                                    judge_target(acc, w, op, detail, tname, t, stop, True, aro, outcome, new_info, direct=True)
                                     acc.outcomes.add((op, relation(ref, t, stop), aro, outcome.split("@")[0]))
                 # ---- bound targets: master at every tip
                 for m in tips:
                     if not covering(ref, n, ghosts, (t, s, m)):
                         continue
-                    bound_sets = [("bt", False, "m", False)]
-                    if thorough or n <= 3:
-                        bound_sets += [("bta", True, "m", False), ("btm", False, "ma", True)]
-                    for tname, aro, mname, maro in bound_sets:
-                        for stop in (stops if (thorough or n <= 3) else stops[:1] + stops[-1:]):
+                    bound_sets = [("bt", False, "m", False, True)]
+                    if full:
+                        bound_sets += [("bta", True, "m", False, thorough), ("btm", False, "ma", True, thorough)]
+                    for tname, aro, mname, maro, all_stops in bound_sets:
+                        for stop in (stops if (all_stops and full) else stops[:1]):
                             x = s if stop is None else stop
                             for overwrite in (False, True):
                                 for op in ("pull", "push"):
@@ -323,7 +347,7 @@ def judge_bound(acc, w, sig0, detail, tname, mname, t, m, x, overwrite, aro, mar
     if nm == "bad" or nt == "bad":
         return
     if outcome.startswith("exc:"):
-        acc.violation("%s:%s" % (sig0, outcome[4:]), detail)
+        acc.violation("tip-update:%s" % outcome[4:], detail)
         return
     rel_m = relation(ref, m, x)
     rel_t = relation(ref, t, x)
@@ -357,7 +381,7 @@ def items_for(nmax, ghost_max, thorough):
     items = []
     for n in range(1, nmax + 1):
         for dag in gen.dags(n):
-            if len(gen.heads(dag, range(n))) <= (3 if n <= 3 or thorough else 2):
+            if len(gen.heads(dag, range(n))) <= (3 if n <= (4 if thorough else 3) else 2):
                 items.append((dag, frozenset(), thorough))
             if n <= ghost_max:
                 for g in range(n):
@@ -376,7 +400,8 @@ def run(ctx):
     acc = par.merge(par.pmap(_work, items, seed=ctx.seed, chunks_per_job=8))
     a1 = _work(items[:4])
     a2 = _work(items[:4])
-    if (a1.n, sorted(map(repr, a1.outcomes)), a1.violations) != (a2.n, sorted(map(repr, a2.outcomes)), a2.violations):
+    if (a1.n, sorted(map(repr, a1.outcomes)), sorted(x[0] for x in a1.violations)) != \
+            (a2.n, sorted(map(repr, a2.outcomes)), sorted(x[0] for x in a2.violations)):
         raise HarnessError("C21: two runs of the same histories differ")
     best = {}
     for sig, d in acc.violations:
